@@ -121,14 +121,15 @@ def tensor(
     else:
         numpy_dtype = None
 
+    if dtype == _enums.DataType.STRING:
+        numpy_dtype = None  # let numpy pick the str / bytes dtype; encoded below
     array = np.array(value, dtype=numpy_dtype)
 
-    # Handle string tensors by encoding them
-    if isinstance(value, str) or (
-        isinstance(value, Sequence) and value and all(isinstance(elem, str) for elem in value)
-    ):
-        # np,strings was added in numpy 2.0, so mypy's stubs may not include it yet.
-        array = np.strings.encode(array, encoding="utf-8")  # type: ignore[attr-defined]
+    # Handle string tensors (str or bytes elements, any nesting) by encoding them
+    if array.dtype.kind in ("U", "S") and (dtype is None or dtype == _enums.DataType.STRING):
+        if array.dtype.kind == "U":
+            # np,strings was added in numpy 2.0, so mypy's stubs may not include it yet.
+            array = np.strings.encode(array, encoding="utf-8")  # type: ignore[attr-defined]
         return _core.StringTensor(
             array,
             shape=_core.Shape(array.shape),
